@@ -64,5 +64,12 @@ func corpus() []witness {
 		// KNOWN FINDING fid-tag-value: a tag whose value is a single feature id has no value type in the
 		// index; reading it back panics while the search index is built (fatal)
 		{"feature-id-tag-value", with(pt(nsNode, 9, 515200000, -1000000, Tag{K: "b6:ref", V: Val{Kind: 'f', F: ID{0, nsNode, 1}}}))},
+		// KNOWN FINDING point-member-without-block: a relation with a point member in a namespace that has no
+		// points at all (a member outside the extract): emitPoints reserves in a block that was never created
+		// ("No builder for type point", fatal)
+		{"point-member-without-block", with(Feat{ID: ID{3, nsRel, 5}, Members: []Member{{"stop", ID{0, "nowhere", 9}}}})},
+		// KNOWN FINDING list-tag-on-non-path: a list valued tag on a point: toCompactValue has no geometry
+		// encoding for it ("not implemented", fatal)
+		{"list-tag-on-non-path", with(pt(nsNode, 8, 515300000, -1000000, Tag{K: "via", V: Val{Kind: 'x', X: []Elem{ll(1, 2)}}}))},
 	}
 }
